@@ -57,6 +57,7 @@ func isCallTo(in ssa.Instruction, set map[*ssa.Call]bool) bool {
 func runC02(c *Ctx) {
 	c.ruleS1("S1-sequencing")
 	c.ruleS2("S2-one-branch")
+	c.ruleListenerAttach("S9-every-construct-compiled")
 	c.ruleS3("S3-for")
 	c.ruleS4("S4-for-range")
 	c.ruleS5("S5-sentinels")
